@@ -282,6 +282,16 @@ fn txt_of(len: usize, c: u8) -> Txt<Vec<u8>> {
     Txt::<Vec<u8>>::build_from_slice(&data).unwrap()
 }
 
+thread_local! {
+    /// This run pushes its records the way section-generic code does:
+    /// through the `RecordSectionBuilder` trait.
+    static PUSH_VIA_TRAIT: Cell<bool> = const { Cell::new(false) };
+}
+
+fn push_generic<T: Composer, B: domain::base::message_builder::RecordSectionBuilder<T>>(b: &mut B, rec: impl domain::base::record::ComposeRecord) -> Result<(), PushError> {
+    b.push(rec)
+}
+
 /// The four typestate builders behind one interface.
 enum Stage<T> {
     Q(QuestionBuilder<T>),
@@ -394,7 +404,11 @@ impl<T: Composer> Stage<T> {
                 macro_rules! push_rec {
                     ($data:expr) => {{
                         let rec = (owner, Class::IN, ttl, $data);
+                        let via_trait = PUSH_VIA_TRAIT.with(|c| c.get());
                         match st {
+                            Stage::An(b) if via_trait => push_generic(b, rec),
+                            Stage::Au(b) if via_trait => push_generic(b, rec),
+                            Stage::Ad(b) if via_trait => push_generic(b, rec),
                             Stage::An(b) => b.push(rec),
                             Stage::Au(b) => b.push(rec),
                             Stage::Ad(b) => b.push(rec),
@@ -1148,6 +1162,7 @@ fn run(tier: Tier) {
     if size_class == 5 {
         sim::stat("probe.unbounded_target_beyond_64k");
     }
+    PUSH_VIA_TRAIT.with(|c| c.set(sim::chance("cfg.push_via_the_section_trait", 1, 3)));
     let ops = gen_ops(&pool, size_class);
     ev!("compressor={:?} stream={} size_class={} ops={:?}", comp, stream, size_class, ops);
     let label = format!("{:?}{}", comp, if stream { "+stream" } else { "" });
